@@ -49,14 +49,14 @@ class Monitor:
                 if r is res:
                     prev_res = rs[i - 1] if i > 0 else None
                     next_res = rs[i + 1] if i + 1 < len(rs) else None
-        # a neighbour whose CA is more than 4.5 A from this residue's CA is not bonded to it (3.8 A across a
+        # a neighbour whose CA is more than 4.05 A from this residue's CA is not bonded to it (3.8 A across a
         # trans peptide bond, 3.0 A across a cis one): there is a gap in the chain between the two
         gaps = set()
         ca = res.get_atom("CA") if res.has_atom("CA") else None
         for lab, r in (("next", next_res), ("prev", prev_res)):
             if r is not None and ca is not None and r.has_atom("CA"):
                 o = r.get_atom("CA")
-                if ((ca.x - o.x) ** 2 + (ca.y - o.y) ** 2 + (ca.z - o.z) ** 2) ** 0.5 > 4.5:
+                if ((ca.x - o.x) ** 2 + (ca.y - o.y) ** 2 + (ca.z - o.z) ** 2) ** 0.5 > 4.05:
                     gaps.add(lab)
         fit["gaps"] = sorted(gaps)
         out = []
